@@ -205,17 +205,27 @@ class Generated(Part):
 
 class StyleCodes(Part):
     name = "style-codes"
-    rule = ("one Style object (generated foreground x background from all colour kinds incl. default / system / 256 / RGB, x bold/italic) rendered with Style.render under a "
-            "generated sequence of 2-4 colour systems: the SGR parameters written for each system are the attribute codes followed by the standard parameters of each "
+    rule = ("one Style object (generated foreground x background from all colour kinds incl. default / system / 256 / RGB, x any of the 13 attributes, sometimes only the rarely used ones) rendered with Style.render under a "
+            "generated sequence of 2-4 colour systems, followed by 0-2 further Style objects with the same attribute combination and other colours: the SGR parameters written for each system are the attribute codes followed by the standard parameters of each "
             "colour down-converted to that system (computed from freshly built colours), whatever was rendered before; non-trivial = foreground and background of "
             "different kinds and >= 2 distinct systems")
     budget = {"quick": (4, 1500), "thorough": (16, 10000)}
 
+    ATTR_CODE = [("bold", "1"), ("dim", "2"), ("italic", "3"), ("underline", "4"), ("blink", "5"), ("blink2", "6"), ("reverse", "7"), ("conceal", "8"), ("strike", "9"),
+                 ("underline2", "21"), ("frame", "51"), ("encircle", "52"), ("overline", "53")]
+
     def strategy(self, tier):
         src = Generated().strategy(tier)
         plus = st.one_of(st.none(), st.builds(lambda fg, bg, link: {"fg": fg, "bg": bg, "link": link}, st.one_of(st.none(), st.none(), src), st.one_of(st.none(), src, src), st.booleans()))
-        return st.builds(lambda fg, bg, attrs, systems, pl: {"fg": fg, "bg": bg, "attrs": attrs, "systems": systems, "plus": pl}, st.one_of(st.none(), src, src), st.one_of(st.none(), src, src),
-                         st.lists(st.sampled_from(["bold", "italic", "underline"]), max_size=2, unique=True), st.lists(st.sampled_from(SYSTEMS), min_size=2, max_size=4), plus)
+        # attributes: mostly the common ones, sometimes only the rarely used ones (blink .. overline), sometimes none
+        names = [a for a, _ in self.ATTR_CODE]
+        attrs = st.one_of(st.lists(st.sampled_from(names[:4]), max_size=2, unique=True), st.lists(st.sampled_from(names[4:]), min_size=1, max_size=2, unique=True),
+                          st.lists(st.sampled_from(names), max_size=3, unique=True))
+        # further Style objects rendered afterwards: same attribute combination as the first (or their own), other colours or none
+        sibling = st.builds(lambda fg, bg, own, sy: {"fg": fg, "bg": bg, "attrs": own, "systems": sy}, st.one_of(st.none(), src), st.one_of(st.none(), src), st.one_of(st.none(), st.none(), attrs),
+                            st.lists(st.sampled_from(SYSTEMS), min_size=1, max_size=2))
+        return st.builds(lambda fg, bg, attrs, systems, pl, sib: {"fg": fg, "bg": bg, "attrs": attrs, "systems": systems, "plus": pl, "siblings": sib}, st.one_of(st.none(), src, src), st.one_of(st.none(), src, src),
+                         attrs, st.lists(st.sampled_from(SYSTEMS), min_size=2, max_size=4), plus, st.lists(sibling, max_size=2))
 
     def check(self, spec, ctx):
         import re
@@ -223,25 +233,37 @@ class StyleCodes(Part):
         from rich.style import Style
 
         g = Generated()
+        attr_codes = lambda attrs: [c for a, c in self.ATTR_CODE if a in attrs]
+        attr_code = dict(self.ATTR_CODE)
+        rendered_before = []
+        style = None
+        for idx, one in enumerate([spec] + [dict(sb, attrs=spec["attrs"] if sb["attrs"] is None else sb["attrs"]) for sb in spec.get("siblings", [])]):
+            fg = g.build(one["fg"])[0] if one["fg"] else None
+            bg = g.build(one["bg"])[0] if one["bg"] else None
+            st_obj = sut(Style, color=fg, bgcolor=bg, **{a: True for a in one["attrs"]})
+            if idx == 0:
+                style = st_obj
+            for si, sysname in enumerate(one["systems"]):
+                system = ColorSystem[sysname]
+                out = sut(st_obj.render, "X", color_system=system)
+                want = attr_codes(one["attrs"])
+                for src, is_fg in ((one["fg"], True), (one["bg"], False)):
+                    if src:
+                        fresh = g.build(src)[0]
+                        down = sut(fresh.downgrade, system)
+                        want += list(expected_codes(kind_of(down), is_fg))
+                m = re.fullmatch(r"\x1b\[([0-9;]*)mX\x1b\[0m", out)
+                got = m.group(1).split(";") if m else (None if out != "X" else [])
+                if got != want:
+                    which = "first" if (idx == 0 and si == 0) else ("after-another-system" if idx == 0 else "after-another-style")
+                    ctx.violation("sgr", "C18/sgr/style-%s" % which,
+                                  "Style(color=%r, bgcolor=%r, %r) rendered for %s as %r, expected parameters %r (rendered before in this case: %r)" % (fg, bg, one["attrs"], sysname, out, want, rendered_before))
+                    return
+                rendered_before.append((idx, sysname))
         fg = g.build(spec["fg"])[0] if spec["fg"] else None
         bg = g.build(spec["bg"])[0] if spec["bg"] else None
-        style = sut(Style, color=fg, bgcolor=bg, **{a: True for a in spec["attrs"]})
-        attr_code = {"bold": "1", "italic": "3", "underline": "4"}
-        for si, sysname in enumerate(spec["systems"]):
-            system = ColorSystem[sysname]
-            out = sut(style.render, "X", color_system=system)
-            want = [attr_code[a] for a in ("bold", "italic", "underline") if a in spec["attrs"]]
-            for src, is_fg in ((spec["fg"], True), (spec["bg"], False)):
-                if src:
-                    fresh = g.build(src)[0]
-                    down = sut(fresh.downgrade, system)
-                    want += list(expected_codes(kind_of(down), is_fg))
-            m = re.fullmatch(r"\x1b\[([0-9;]*)mX\x1b\[0m", out)
-            got = m.group(1).split(";") if m else (None if out != "X" else [])
-            if got != want:
-                ctx.violation("sgr", "C18/sgr/style-%s" % ("first" if si == 0 else "after-another-system"),
-                              "Style(color=%r, bgcolor=%r, %r) rendered for %s (after %r) as %r, expected parameters %r" % (fg, bg, spec["attrs"], sysname, spec["systems"][:si], out, want))
-                return
+        if spec.get("siblings") and set(spec["attrs"]) & {a for a, _ in self.ATTR_CODE[4:]}:
+            ctx.cls("siblings-with-rare-attributes")
         # a style derived from the one just rendered (base + another style that may carry only a background and a link) has codes of its own
         pl = spec.get("plus")
         if pl:
@@ -252,7 +274,7 @@ class StyleCodes(Part):
             for sysname in spec["systems"]:
                 system = ColorSystem[sysname]
                 out = sut(derived.render, "X", color_system=system, legacy_windows=True)   # legacy_windows: no hyperlink sequence around the text
-                want = [attr_code[a] for a in ("bold", "italic", "underline") if a in spec["attrs"]]
+                want = attr_codes(spec["attrs"])
                 for src, is_fg in ((eff_fg, True), (eff_bg, False)):
                     if src:
                         want += list(expected_codes(kind_of(sut(g.build(src)[0].downgrade, system)), is_fg))
